@@ -66,6 +66,12 @@ func original(v int64) (rtp.Header, []byte) {
 		h.Padding = true
 		payload = append(payload, 0, 0, 3)
 	}
+	if v%7 == 4 {
+		// a padding-only packet (bandwidth probe): no payload, five octets of padding. It has a sequence number
+		// of its own, can be lost and can be asked for like any other packet.
+		h.Padding, h.PaddingSize = true, 5
+		payload = nil
+	}
 	return h, payload
 }
 
